@@ -111,7 +111,7 @@ theorem derva_sound (v : View) {r size a : Nat} {ref : Ref} (h : v.derva (.rva r
 
 theorem dervaSlice_okOrErr (v : View) (r size a len : Nat) (hp : isPow2 a = true) :
     OkOrErr (v.dervaSlice (.rva r) size a len) := by
-  unfold View.dervaSlice
+  rw [dervaSlice_unfold]
   rw [at_rva]
   split
   · exact .inr ⟨_, rfl⟩
@@ -122,7 +122,7 @@ theorem dervaSlice_okOrErr (v : View) (r size a len : Nat) (hp : isPow2 a = true
 theorem dervaSlice_sound (v : View) {r size a len : Nat} {ref : Ref}
     (h : v.dervaSlice (.rva r) size a len = .ok ref) :
     RefOK v.img ref ∧ ref.len = size * len ∧ ref.align = a := by
-  unfold View.dervaSlice at h
+  rw [dervaSlice_unfold] at h
   rw [at_rva] at h
   split at h
   · cases h
@@ -1169,7 +1169,7 @@ theorem slice_null (v : View) (min a : Nat) : v.slice 0 min a = .err .null := by
 
 theorem dervaSlice_null (v : View) (size a len : Nat) (h : size * len < 18446744073709551616) :
     v.dervaSlice (.rva 0) size a len = .err .null := by
-  unfold View.dervaSlice
+  rw [dervaSlice_unfold]
   rw [if_neg (by omega), at_rva, slice_null]
 
 theorem mkTab_null (cnt : Nat) : mkTab (.err .null) cnt = .ok ⟨0, 0, true⟩ := rfl
